@@ -280,7 +280,8 @@ def _r194(ctx: Ctx) -> None:
         dict(data_dir='D', sizes='3x4,5', decoder_class='BeliefPropagationOSDDecoder', bias='Z', eta='10,inf,0.5',
              prob='0.1:0.3:0.1', code_class='Toric2DCode', noise_class='PauliErrorModel', deformation_name='XZZX',
              method='direct', label=None),
-        dict(data_dir='D', sizes='2x3x4', decoder_class='MatchingDecoder', bias='X', eta='3', prob='0.05,0.07',
+        # sizes that are permutations of each other (and a two-number one made of the same numbers) stay different sizes
+        dict(data_dir='D', sizes='2x3x4,4x3x2,3x4x2,3x4,3x3x3', decoder_class='MatchingDecoder', bias='X', eta='3', prob='0.05,0.07',
              code_class='Toric3DCode', noise_class='PauliErrorModel', deformation_name=None, method='direct',
              label='mylabel'),
         dict(data_dir='D', sizes='3,4', decoder_class='MatchingDecoder', bias='Y', eta='30,100', prob='0.02,0.04,0.06',
@@ -297,6 +298,12 @@ def _r194(ctx: Ctx) -> None:
         hooks = _HGen()
         it = Interp(m, hooks)
         outs = guard('R19.4', mi, fn)(lambda: it.explore(lambda: it.call_closure(Closure(fn, mi), [], dict(req), fn)))
+        if len(outs) == 1 and outs[0].kind == 'raise':
+            # every value of the request is concrete: one raising path is what the function does with this request
+            ctx.ob('R19.4', site, f'generate_input (request {ri + 1}) completes', False,
+                   f'raises {outs[0].exc} on the request sizes={req["sizes"]!r} eta={req["eta"]!r} prob={req["prob"]!r}',
+                   key=f'generate_input|completes[{ri}]')
+            continue
         ctx.need(len(outs) == 1 and outs[0].kind == 'return', 'R19.4', site, f'generate_input: {outs!r}')
         etas = [s.strip() for s in req['eta'].split(',')]
         ok_files = len(hooks.order) == len(etas) and len(set(hooks.order)) == len(etas)
